@@ -358,5 +358,80 @@ theorem orset_violation_text_depends_on_order_counterexample :
   revert this
   decide
 
+/-! ### `DSTSimulation::step` iterates `CrashSimulator::node_states` (a `HashMap`) and draws per element -/
+
+/-- a scripted word stream: `range lo hi` takes the next word modulo the width, `bool` its parity -/
+def scripted : Sampler (List Nat) where
+  range lo hi
+    | [] => .error "eof"
+    | x :: xs => .ok (if lo ≥ hi then lo else lo + x % (hi - lo), xs)
+  bool _
+    | [] => .error "eof"
+    | x :: xs => .ok (x % 2 == 1, xs)
+
+def nodesOf {σ} : Except String (Dst σ) → Option (List NState)
+  | .ok d => some d.nodes
+  | .error _ => none
+
+def cfg2 : DstCfg := ⟨2, 0, false, false, 0, 0, 100, 5000, 60000⟩
+
+/-- full strength: one step of the simulation is a function of (state, generator) — whatever
+    order the node map is iterated in -/
+def C20_dst_step_independent_of_map_order : Prop :=
+  ∀ (c : DstCfg) (pi pi' : List Nat) (d : Dst (List Nat)), pi.Perm pi' →
+    nodesOf (recoverLoop scripted c pi d) = nodesOf (recoverLoop scripted c pi' d)
+
+/-- two nodes are down; the stream says "recover the first one visited (for 100+7 ms), not the
+    second": WHICH node comes back depends on the iteration order of the map — and with it every
+    later draw, crash, recovery and the final result.  This is what the cross-process runs of the
+    real `DSTSimulation` show (known finding `C20:trace-differs-across-processes:dst`). -/
+theorem dst_recovery_depends_on_map_order_counterexample : ¬ C20_dst_step_independent_of_map_order := by
+  intro h
+  have := h cfg2 [0, 1] [1, 0] { g := [1, 7, 0], now := 50, nodes := [.crashed 10, .crashed 20] }
+    (List.Perm.swap 1 0 [])
+  revert this
+  decide
+
+/-- the recovery loop sees the order only through the sub-list of crashed nodes … -/
+theorem recoverLoop_depends_on_crashed_order_only {σ} (S : Sampler σ) (c : DstCfg) (pi pi' : List Nat) (d : Dst σ)
+    (h : pi.filter (fun i => (d.nodes.getD i .running).isCrashed) = pi'.filter (fun i => (d.nodes.getD i .running).isCrashed)) :
+    recoverLoop S c pi d = recoverLoop S c pi' d := by
+  unfold recoverLoop
+  rw [h]
+
+/-- … so a step does not depend on the map order whenever at most one node is down at that
+    point (decidable hypothesis; the `calm` preset never crashes a node, and the model run says
+    for every step of every run whether the hypothesis held) -/
+theorem dst_step_order_independent_partial {σ} (S : Sampler σ) (c : DstCfg) (pi pi' : List Nat) (d : Dst σ)
+    (hp : pi.Perm pi')
+    (h1 : (pi.filter (fun i => (d.nodes.getD i .running).isCrashed)).length ≤ 1) :
+    recoverLoop S c pi d = recoverLoop S c pi' d := by
+  apply recoverLoop_depends_on_crashed_order_only
+  have hf := hp.filter (fun i => (d.nodes.getD i .running).isCrashed)
+  generalize pi.filter (fun i => (d.nodes.getD i .running).isCrashed) = a at hf h1
+  generalize pi'.filter (fun i => (d.nodes.getD i .running).isCrashed) = b at hf
+  match a, h1 with
+  | [], _ => exact (List.nil_perm.mp hf).symm ▸ rfl
+  | [x], _ => exact (List.singleton_perm.mp hf).symm ▸ rfl
+
+example : (([0, 1, 2] : List Nat).filter (fun i => (([.running, .crashed 3, .running] : List NState).getD i .running).isCrashed)).length ≤ 1 := by decide
+
+/-- recoveries that complete are processed node by node: independent of any order (the model
+    folds over the node list; the real code iterates `recovering_nodes()` in map order) -/
+theorem completeRecoveries_pointwise (now : Nat) (nodes : List NState) :
+    (completeRecoveries now nodes).1 = nodes.map (fun s => match s with
+      | .recovering _ e => if now ≥ e then .running else s
+      | _ => s) := by
+  induction nodes with
+  | nil => rfl
+  | cons s rest ih =>
+    unfold completeRecoveries at ih ⊢
+    simp only [List.foldr_cons, List.map_cons]
+    cases s with
+    | running => simp [ih]
+    | crashed t => simp [ih]
+    | recovering a e =>
+      by_cases hge : now ≥ e <;> simp [hge, ih]
+
 end C20
 end RedisVerif
